@@ -49,7 +49,7 @@ ASSUMPTIONS = [
     "identity, inverses, k*P by repeated addition)",
     "curves in the quantifier: known odd prime order, p = 3 mod 4 (pycoin's Generator asserts this); no point has y = 0 there",
     "'reports that none exists' for points_for_x and the rejection of an off-curve Point() are satisfied by any exception",
-    "coordinates presented unreduced (x+p, y+p) are outside the statement's canonical points; they are exercised and compared "
+    "coordinates presented unreduced (x+p, y+p, and negative representatives x-p, y-p) are outside the statement's canonical points; they are exercised and compared "
     "modulo p only; a library that refuses them at construction is not reported (event unreduced_operand_refused)",
     "inverse_mod is an internal mechanism of the property (anchor), checked only as a*b = 1 (mod m) for invertible a",
     "Generator.raw_mul walks a 256-entry table: curves whose order exceeds 256 bits are not shipped and not exercised",
@@ -356,6 +356,7 @@ COMMON_CLASSES = [
     "add.unreduced_generic", "add.unreduced_doubling", "add.unreduced_inverse", "add.commuted",
     "neg.point", "neg.infinity", "sub.generic", "sub.nongeneric",
     "mul.in_range", "mul.zero_mod_n", "mul.negative", "mul.ge_order", "mul.infinity_point", "mul.unreduced_point",
+    "mul.negative_representative",
     "gmul.in_range", "gmul.zero_mod_n", "gmul.negative", "gmul.ge_order", "gmul.adversarial_entropy",
     "lift.two_points", "lift.no_point", "construct.on_curve", "construct.off_curve", "ecdh", "laws",
 ]
@@ -502,6 +503,8 @@ def judge_mul(ctx, case, exp=None):
     cev(ctx, "mul." + cls)
     if modp:
         cev(ctx, "mul.unreduced_point")
+        if P[0] < 0 or P[1] < 0:
+            cev(ctx, "mul.negative_representative")   # (x - p, y), (x, y - p): same field elements, negative integers
     if smallx:
         cev(ctx, "mul.small_x_point")
     rec.case(("mul", ctx.curve_id, ctx.cfg, P, k))
@@ -1529,7 +1532,7 @@ def run_toy_curve(params, rec, rng, light=False):
                                   a=rng.randrange(-2 * n, 3 * n), b=rng.randrange(-2 * n, 3 * n)))
     # unreduced presentations of every point (compared modulo p)
     for P in pts[1:]:
-        for (dx, dy) in ((p, 0), (0, p), (2 * p, p)):
+        for (dx, dy) in ((p, 0), (0, p), (2 * p, p), (-p, 0), (0, -p), (-p, -2 * p)):
             U = (P[0] + dx, P[1] + dy)
             for Q in (P, c.neg(P), pts[1], None):
                 judge_add(ctx, base_case(ctx, "add", P=list(U), Q=list(Q) if Q else None))
@@ -1656,7 +1659,8 @@ def libcrypto_findable():
 
 
 def unreduce(c, rng, P):
-    dx, dy = rng.choice([(c.p, 0), (0, c.p), (c.p, c.p), (2 * c.p, 0)])
+    dx, dy = rng.choice([(c.p, 0), (0, c.p), (c.p, c.p), (2 * c.p, 0),
+                         (-c.p, 0), (0, -c.p), (-c.p, -c.p), (0, -2 * c.p), (c.p, -c.p), (0, -3 * c.p)])   # negative presentations too
     return (P[0] + dx, P[1] + dy)
 
 
